@@ -13,6 +13,14 @@
 (* destination format; nothing outside the addressed pixels changed (frame); the source was   *)
 (* not modified; all presentations agree; reading F and writing it back is the identity       *)
 (* (through a8r8g8b8 for formats of at most 8 bits per channel, through rgba_float for all).  *)
+(*   Equiv : (harness/drv_accequiv.c) one request of any drawing entry point -- trapezoid /   *)
+(*           triangle rasterisation, composite_trapezoids / triangles, composite32, fill_boxes /  *)
+(*           fill_rectangles, composite_glyphs(_no_mask) -- executed on directly addressed images *)
+(*           (direct) and on twins with identical initial bytes wrapped in read/write callbacks  *)
+(*           (wrapped[k], acc = 1 destination + 2 source + 4 mask or glyph image).  The action is *)
+(*           the statement itself: ViaAccessors(req) = Direct(req) on the whole destination       *)
+(*           buffer, row padding included (undefined bits of x-formats excepted), and no source   *)
+(*           or mask is written.                                                                  *)
 (* The state of the one-step machine is the destination buffer last written.                  *)
 (* (Shared values are passed as operator arguments, which TLC evaluates once; see Formats.)   *)
 EXTENDS Formats, TraceIO
@@ -85,12 +93,44 @@ TStore ==
     /\ dst' = TraceLog[l].outs[Len(TraceLog[l].outs)].after
     /\ l' = l + 1
 
+(* ---- accessor equivalence of every drawing entry point ---- *)
+FullyDefined(f) == IsIndexed(f) \/ (IsPacked(f) /\ f.a + f.r + f.g + f.b = f.bpp)
+
+RowEquiv(f, w, ra, rb) ==
+    /\ SameOutside(ra, rb, 0, w * f.bpp)                              \* padding bits of the row
+    /\ \A x \in 0..(w - 1) : DefinedEq(f, 0, ra, x, rb, x)
+
+BufEquiv(f, w, h, stride, a, b) ==
+    IF FullyDefined(f) THEN a = b
+    ELSE /\ Len(a) = Len(b) /\ Len(a) = h * stride
+         /\ \A y \in 0..(h - 1) : RowEquiv(f, w, SubSeq(a, y * stride + 1, (y + 1) * stride), SubSeq(b, y * stride + 1, (y + 1) * stride))
+
+HasImg(code) == code[1] # 0 \/ code[2] # 0
+AccBits(ev) == 1 + (IF HasImg(ev.sf) THEN 2 ELSE 0) + (IF HasImg(ev.mf) THEN 4 ELSE 0)
+RequiredVariants(ev) == {1, AccBits(ev)} \cup (IF HasImg(ev.sf) THEN {2} ELSE {}) \cup (IF HasImg(ev.mf) THEN {4} ELSE {})
+
+ViaAccessorsIsDirect(ev, f, wr) ==
+    /\ BufEquiv(f, ev.dw, ev.dh, ev.dstride, wr.dst, ev.direct.dst)
+    /\ wr.src = ev.sinit /\ wr.msk = ev.minit
+
+EquivOK(ev, f) ==
+    /\ RequiredVariants(ev) \subseteq {ev.wrapped[k].acc : k \in DOMAIN ev.wrapped}
+    /\ ev.direct.src = ev.sinit /\ ev.direct.msk = ev.minit            \* drawing does not write its sources
+    /\ Len(ev.direct.dst) = Len(ev.dinit)
+    /\ \A k \in DOMAIN ev.wrapped : ViaAccessorsIsDirect(ev, f, ev.wrapped[k])
+
+TEquiv ==
+    /\ l <= TraceLen /\ TraceLog[l].e = "Equiv"
+    /\ EquivOK(TraceLog[l], Fmt(Code(TraceLog[l].df))) = TRUE
+    /\ dst' = TraceLog[l].direct.dst
+    /\ l' = l + 1
+
 TReset ==
     /\ l <= TraceLen /\ TraceLog[l].e = "Reset"
     /\ dst' = <<>>
     /\ l' = l + 1
 
 TInit == l = 1 /\ dst = <<>>
-TNext == TReset \/ TFetch \/ TStore
+TNext == TReset \/ TFetch \/ TStore \/ TEquiv
 TSpec == TInit /\ [][TNext]_<<l, dst>>
 =============================================================================
